@@ -313,7 +313,7 @@ def eval_wrap(case):
 
 
 def arms(tier):
-    return [Arm("docs", eval_wrap, docs, quick=12000, thorough=400000)]
+    return [Arm("docs", eval_wrap, docs, quick=20000, thorough=400000)]
 
 
 MIN_CLASS_COUNTS = {"well-shaped:with-merge": 600, "well-shaped:with-merge-list>=2": 200, "ill-shaped:unhashable key": 100}
